@@ -1075,6 +1075,8 @@ pub(crate) fn get_data_type_attrs(input: &[Attribute]) -> Result<(DataTypeAttrs,
             x.parse_args_with(|input: ParseStream| {
                 let new_instrs: Punctuated<DataTypeInstruction, Token![,]> = Punctuated::parse_terminated_with(input, |input| {
                     let instr = input.parse::<Ident>()?;
+                    #[cfg(o2o_verif)]
+                    crate::verif::on_instr("type", &instr.to_string(), true);
                     let p: OptionalParenthesizedTokenStream = input.parse()?;
                     parse_data_type_instruction(&instr, p.content(), true, true)
                 })?;
@@ -1087,6 +1089,8 @@ pub(crate) fn get_data_type_attrs(input: &[Attribute]) -> Result<(DataTypeAttrs,
                 Ok(())
             })?;
         } else if let Some(instr) = path.get_ident() {
+            #[cfg(o2o_verif)]
+            crate::verif::on_instr("type", &instr.to_string(), false);
             #[cfg(feature = "syn")]
             let tokens = syn::parse2(x.tokens.clone()).map(|x: OptionalParenthesizedTokenStream|x.content())?;
 
@@ -1139,6 +1143,8 @@ pub(crate) fn get_data_type_attrs(input: &[Attribute]) -> Result<(DataTypeAttrs,
 }
 
 pub(crate) fn get_member_attrs(input: SynDataTypeMember, bark: bool) -> Result<MemberAttrs> {
+    #[cfg(o2o_verif)]
+    crate::verif::on_member(&input);
     let mut instrs: Vec<MemberInstruction> = vec![];
     for x in input.get_attrs().iter() {
         #[cfg(feature = "syn")]
@@ -1153,6 +1159,8 @@ pub(crate) fn get_member_attrs(input: SynDataTypeMember, bark: bool) -> Result<M
             x.parse_args_with(|input: ParseStream| {
                 let new_instrs: Punctuated<MemberInstruction, Token![,]> = Punctuated::parse_terminated_with(input, |input| {
                     let instr = input.parse::<Ident>()?;
+                    #[cfg(o2o_verif)]
+                    crate::verif::on_instr("member", &instr.to_string(), true);
                     let p: OptionalParenthesizedTokenStream = input.parse()?;
                     parse_member_instruction(&instr, p.content(), true, true)
                 })?;
@@ -1160,6 +1168,8 @@ pub(crate) fn get_member_attrs(input: SynDataTypeMember, bark: bool) -> Result<M
                 Ok(())
             })?;
         } else if let Some(instr) = path.get_ident() {
+            #[cfg(o2o_verif)]
+            crate::verif::on_instr("member", &instr.to_string(), false);
             #[cfg(feature = "syn")]
             let tokens = syn::parse2(x.tokens.clone()).map(|x: OptionalParenthesizedTokenStream|x.content())?;
             
